@@ -115,3 +115,14 @@ package witness
 //@   ensures[C04.g,C16.g] st_has[S][logID] && !(n_ro == old(n_ro) + 1 && ro_err != nil) && !(n_gl == old(n_gl) + 1 && gl_err != nil) ==> err == nil
 //@   ensures[C16.n]  !st_has[S][logID] ==> err != nil && (!(n_ro == old(n_ro) + 1 && ro_err != nil) ==> code(err) == NotFound || code(gl_err) != NotFound) && out == nil
 //@   ensures[C03.g,C16.f] st_has == old(st_has) && st_val == old(st_val) && n_commit == old(n_commit) && n_wo == old(n_wo) && n_set == old(n_set)
+
+//@ func New
+//@   returns (w, err)
+//@   ensures[C02.w,C12.w] err == nil ==> w != nil && w.lsp == wo.Persistence && w.Signers == wo.Signers && w.Logs == wo.KnownLogs
+//@   ensures[C02.w,C12.w] err != nil ==> w == nil
+
+//@ func initMetrics$1
+//@   // the four update counters are distinct, non-nil objects (precondition of Update's counter clauses)
+//@   ensures[C20.i] counterUpdateAttempt != nil && counterUpdateSuccess != nil && counterInvalidConsistency != nil && counterInconsistentCheckpoints != nil
+//@   ensures[C20.i] counterUpdateAttempt != counterUpdateSuccess && counterUpdateAttempt != counterInvalidConsistency && counterUpdateAttempt != counterInconsistentCheckpoints
+//@   ensures[C20.i] counterUpdateSuccess != counterInvalidConsistency && counterUpdateSuccess != counterInconsistentCheckpoints && counterInvalidConsistency != counterInconsistentCheckpoints
